@@ -211,7 +211,7 @@ def execute_secured(case):
             bu.give_key(node, 'k-enc-1', 3, 'enc')
         bu.add_policy(src, 'bcb', 'k-enc-1', [1], ivs=[b'\x21' * 12])
     empty = dict(bundle, blocks=bundle['blocks'][:-1] + [dict(bundle['blocks'][-1], data='')])
-    src.config.tx_route_table[0].mtu = len(r.encode(empty)) + 110 + int(case.get('mtu_extra', 60))
+    src.set_mtu(0, len(r.encode(empty)) + 110 + int(case.get('mtu_extra', 60)))
     err = src.send(BundleContainer(bpconv.to_repo(bundle)))
     wires = list(src.sent())
     decs = []
@@ -396,7 +396,7 @@ def execute(case):
         src_node = bw.Node('dtn://src/', tx_routes=[('.*', 'dtn://next/', None)], name='source')
         empty = dict(originals[0], blocks=originals[0]['blocks'][:-1] + [dict(originals[0]['blocks'][-1], data='')])
         chunk = max(1, case['total'] // max(1, len(case['ranges'])))
-        src_node.config.tx_route_table[0].mtu = len(r.encode(empty)) + 24 + chunk
+        src_node.set_mtu(0, len(r.encode(empty)) + 24 + chunk)
         src_node.send(BundleContainer(bpconv.to_repo(originals[0])))
         repo_wires = [w for w in src_node.sent()]
         decs = [r.decode(w) for w in repo_wires]
